@@ -11,7 +11,7 @@ NumPy.
 """
 import ast
 
-from ..loader import AnalysisError, norm, walk_no_nested, call_name, parents_map
+from ..loader import AnalysisError, norm, walk_no_nested, call_name, parents_map, protocol_body
 from ..effects import Effects, base_chain
 from . import c16, c08, c02
 
@@ -142,7 +142,7 @@ def rule_E2(run, prog, E):
                                    "justification": E2_TABLE.get(key)})
     # justifications
     rp = prog.cls("quantarhei.qm.propagators.rdmpropagator.ReducedDensityMatrixPropagator")
-    pf = rp.methods["propagate"]
+    pf, _ = protocol_body(prog, rp, "propagate")
     sets = [n for n in walk_no_nested(pf.node) if isinstance(n, ast.Call) and call_name(n) == "setDtRefinement"]
     pm = parents_map(pf.node)
     ok = bool(sets)
